@@ -1297,5 +1297,184 @@ Section Top.
       intros ev Hin. pose proof (events_old pre [] init ev Base_init Hs_pre Hin) as Hlt. fold s in Hlt.
       unfold is_i. apply eqb_false_iff. intros Heq. rewrite Heq in Hlt. simpl in Hlt. lia.
     Qed.
+
+    (** what the phase shows to the queries *)
+    Lemma R_view used ph st :
+      R r0 d used ph st ->
+      pending st (req_id r0) = match ph with Pending => [d] | _ => [] end
+      /\ query_random st (req_id r0) = match ph with Fulfilled ev => Some (result_of ev) | _ => None end
+      /\ match ph with
+         | Started => get (q_ctx r0) (oracle st) = Some r0
+         | _ => forall x r, In (x, r) (oracle st) -> req_id r <> req_id r0
+         end.
+    Proof.
+      unfold pending, query_random.
+      change (fun e : Z * rid * request => eqb (snd (fst e)) (req_id r0)) with (key_i r0).
+      destruct ph as [| |ev|]; simpl.
+      - intros (_ & _ & H3 & H4 & H5 & _). rewrite H3. auto.
+      - intros (_ & _ & H3 & H4 & _ & H6 & _). rewrite H3. auto.
+      - intros (_ & H2 & H3 & H4). rewrite H2. auto.
+      - intros (_ & H2 & H3 & H4). rewrite H2. auto.
+    Qed.
+
+    (** a plain request: pending until the begin block number [n+1] after it, fulfilled there
+        from that block's header, exactly once *)
+    Lemma plain_lemma : orc = false ->
+      let fin := run sha init steps in
+      let mine := filter (is_i r0) (events sha init steps) in
+      match nth_begin (Z.to_nat n) post with
+      | None => pending fin (req_id r0) = [d] /\ query_random fin (req_id r0) = None /\ mine = []
+      | Some (t, a) =>
+          let x := rand_val sha t a c None in
+          pending fin (req_id r0) = [] /\ query_random fin (req_id r0) = Some (txh, d, x)
+          /\ mine = [mkEv (d + 1) t a (req_id r0) txh None x]
+      end.
+    Proof.
+      intros Horc fin mine. destruct life_lemma as [HR He].
+      assert (Hs_post : sane (c :: used_after [] pre) post).
+      { unfold steps in Hsane. apply sane_app in Hsane. destruct Hsane as [_ Hs_rest].
+        apply sane_cons in Hs_rest. destruct Hs_rest as [_ Hs_post].
+        unfold used_step in Hs_post. simpl in Hs_post. rewrite Hok in Hs_post. exact Hs_post. }
+      assert (Hor : q_oracle r0 = false) by exact Horc.
+      pose proof (spec_run_plain sha r0 d Hor post _ s1 Hs_post) as Hsp.
+      assert (Hle : height s1 <= d) by (unfold s1, d; simpl; lia).
+      specialize (Hsp Hle). replace (d - height s1) with n in Hsp by (unfold s1, d; simpl; lia).
+      destruct (R_view _ _ _ HR) as (Hp & Hq & _). fold fin in Hp, Hq. fold mine in He.
+      rewrite Hsp in Hp, Hq, He.
+      destruct (nth_begin (Z.to_nat n) post) as [[t a]|].
+      - cbv zeta. rewrite Hp, Hq, He. unfold result_of. simpl.
+        replace (d + 1 - 1) with d by lia. auto.
+      - rewrite Hp, Hq, He. auto.
+    Qed.
   End Life.
+
+  (** once a result can be read under the id of a request, every longer history reads the same *)
+  Lemma read_back_lemma pre post post' c n orc capok txh svc v :
+    let s := run sha init pre in
+    let r0 := new_req s c txh orc svc in
+    let rq := Req c n orc capok txh svc in
+    sane [] (pre ++ rq :: post ++ post') ->
+    req_ok c capok orc svc = true -> 0 <= n -> height s + n < two64 ->
+    (orc = true -> ctx_unused r0 (pre ++ post ++ post')) ->
+    query_random (run sha init (pre ++ rq :: post)) (req_id r0) = Some v ->
+    query_random (run sha init (pre ++ rq :: post ++ post')) (req_id r0) = Some v.
+  Proof.
+    intros s r0 rq Hs Hok Hn Hd Hc Hq.
+    assert (Hs1 : sane [] (pre ++ rq :: post)).
+    { rewrite app_comm_cons, app_assoc in Hs. apply sane_app in Hs. tauto. }
+    assert (Hc1 : orc = true -> ctx_unused r0 (pre ++ post)).
+    { intros Ho. specialize (Hc Ho). rewrite app_assoc in Hc. apply ctx_unused_app in Hc. tauto. }
+    destruct (life_lemma pre post c n orc capok txh svc Hs1 Hok Hn Hd Hc1) as [HR1 _].
+    destruct (life_lemma pre (post ++ post') c n orc capok txh svc Hs Hok Hn Hd Hc) as [HR2 _].
+    apply R_view in HR1. destruct HR1 as (_ & Hq1 & _).
+    apply R_view in HR2. destruct HR2 as (_ & Hq2 & _).
+    fold s r0 rq in Hq1, Hq2. rewrite Hq1 in Hq. rewrite Hq2.
+    rewrite spec_run_app.
+    destruct (spec_run sha r0 (height s + n) (enq s n r0) Pending post) as [| |ev|]; try discriminate.
+    rewrite spec_run_fulfilled. exact Hq.
+  Qed.
+
+  (** at most one fulfilment per request, in every history *)
+  Lemma at_most_once_lemma pre post c n orc capok txh svc :
+    let s := run sha init pre in
+    let r0 := new_req s c txh orc svc in
+    let steps := pre ++ Req c n orc capok txh svc :: post in
+    sane [] steps -> req_ok c capok orc svc = true -> 0 <= n -> height s + n < two64 ->
+    (orc = true -> ctx_unused r0 (pre ++ post)) ->
+    (length (filter (is_i r0) (events sha init steps)) <= 1)%nat.
+  Proof.
+    intros s r0 steps Hs Hok Hn Hd Hc.
+    destruct (life_lemma pre post c n orc capok txh svc Hs Hok Hn Hd Hc) as [_ He].
+    fold s r0 steps in He. rewrite He.
+    destruct (spec_run sha r0 (height s + n) (enq s n r0) Pending post); simpl; lia.
+  Qed.
+
+  (** two fulfilments - in the same or in different histories - under the same block time,
+      app hash, requester and oracle seed have the same value *)
+  Lemma same_inputs_same_value_lemma steps1 steps2 ev1 ev2 :
+    sane [] steps1 -> sane [] steps2 ->
+    In ev1 (events sha init steps1) -> In ev2 (events sha init steps2) ->
+    e_time ev1 = e_time ev2 -> e_app ev1 = e_app ev2 ->
+    snd (e_rid ev1) = snd (e_rid ev2) -> e_seed ev1 = e_seed ev2 ->
+    e_val ev1 = e_val ev2.
+  Proof.
+    intros H1 H2 Hi1 Hi2 Ht Ha Hc Hsd.
+    destruct (events_value steps1 [] init ev1 Base_init H1 Hi1) as [_ ->].
+    destruct (events_value steps2 [] init ev2 Base_init H2 Hi2) as [_ ->].
+    rewrite Ht, Ha, Hc, Hsd. reflexivity.
+  Qed.
+
+  Lemma fulfilment_value_lemma steps ev :
+    sane [] steps -> In ev (events sha init steps) ->
+    e_time ev <> 0
+    /\ e_val ev = rand_val sha (e_time ev) (e_app ev) (snd (e_rid ev)) (e_seed ev)
+    /\ 0 <= e_val ev < precision.
+  Proof.
+    intros Hs Hin. destruct (events_value steps [] init ev Base_init Hs Hin) as [Hnz Hv].
+    split; [exact Hnz|]. split; [exact Hv|]. rewrite Hv. apply rand_val_range.
+  Qed.
+  (** the life of a request as the queries and the fulfilment log show it *)
+  Lemma life_view_lemma pre post c n orc capok txh svc :
+    let s := run sha init pre in
+    let r0 := new_req s c txh orc svc in
+    let d := height s + n in
+    let steps := pre ++ Req c n orc capok txh svc :: post in
+    sane [] steps -> req_ok c capok orc svc = true -> 0 <= n -> d < two64 ->
+    (orc = true -> ctx_unused r0 (pre ++ post)) ->
+    let ph := spec_run sha r0 d (enq s n r0) Pending post in
+    let fin := run sha init steps in
+    pending fin (req_id r0) = match ph with Pending => [d] | _ => [] end
+    /\ query_random fin (req_id r0) = match ph with Fulfilled ev => Some (result_of ev) | _ => None end
+    /\ match ph with
+       | Started => get (q_ctx r0) (oracle fin) = Some r0
+       | _ => forall x r, In (x, r) (oracle fin) -> req_id r <> req_id r0
+       end
+    /\ filter (is_i r0) (events sha init steps) = match ph with Fulfilled ev => [ev] | _ => [] end.
+  Proof.
+    intros s r0 d steps Hs Hok Hn Hd Hc ph fin.
+    destruct (life_lemma pre post c n orc capok txh svc Hs Hok Hn Hd Hc) as [HR He].
+    apply R_view in HR. destruct HR as (H1 & H2 & H3).
+    fold s r0 d steps ph fin in H1, H2, H3, He.
+    split; [exact H1|]. split; [exact H2|]. split; [exact H3|].
+    rewrite He. destruct ph; reflexivity.
+  Qed.
+
+  (** the automaton, read off its definition *)
+  Lemma spec_seed_fulfils r0 hh tt aa seed :
+    spec_call sha r0 hh tt aa Started (CallResp (q_ctx r0) (CbSeed seed)) =
+    Fulfilled (mkEv hh tt aa (req_id r0) (q_txh r0) (Some seed)
+                    (rand_val sha tt aa (q_consumer r0) (Some seed))).
+  Proof. unfold spec_call. rewrite Z.eqb_refl. reflexivity. Qed.
+
+  Lemma spec_failure_drops r0 hh tt aa :
+    spec_call sha r0 hh tt aa Started (CallResp (q_ctx r0) CbFail) = Dropped
+    /\ spec_call sha r0 hh tt aa Started (CallResp (q_ctx r0) CbNoCtx) = Dropped
+    /\ spec_call sha r0 hh tt aa Started (CallState (q_ctx r0) true) = Dropped.
+  Proof. unfold spec_call. rewrite Z.eqb_refl. auto. Qed.
+
+  Lemma spec_other_context_ignored r0 hh tt aa cl :
+    match cl with CallResp x _ | CallState x _ => x <> q_ctx r0 end ->
+    spec_call sha r0 hh tt aa Started cl = Started.
+  Proof.
+    destruct cl as [x dta|x ex]; intros Hne; unfold spec_call;
+      destruct (Z.eqb_spec x (q_ctx r0)); try contradiction; reflexivity.
+  Qed.
+
+  Lemma spec_due_block r0 d s t a started : height s = d ->
+    spec_step sha r0 d s Pending (Begin t a started) =
+    if q_oracle r0 then (if existsb (Z.eqb (q_ctx r0)) started then Started else Dropped)
+    else Fulfilled (mkEv (d + 1) t a (req_id r0) (q_txh r0) None (rand_val sha t a (q_consumer r0) None)).
+  Proof. intros Hh. unfold spec_step. rewrite Hh, Z.eqb_refl. reflexivity. Qed.
+
+  Lemma spec_not_due r0 d s st : height s <> d -> spec_step sha r0 d s Pending st = Pending.
+  Proof.
+    intros Hne. destruct st; try reflexivity. unfold spec_step.
+    destruct (Z.eqb_spec (height s) d); [contradiction|reflexivity].
+  Qed.
+
+  Lemma spec_run_dropped r0 d steps : forall s, spec_run sha r0 d s Dropped steps = Dropped.
+  Proof.
+    induction steps as [|st steps IH]; intros s; cbn [spec_run]; [reflexivity|].
+    replace (spec_step sha r0 d s Dropped st) with Dropped by (destruct st; reflexivity). apply IH.
+  Qed.
 End Top.
